@@ -155,8 +155,8 @@ func VerifC14_EcdhParamRoundTrip() {
 
 func VerifC14_EcdhParamTotal() {
 	verif.NoPanic()
-	verif.Bound("C14e", "arbitrary 0..6 (quick) / 0..8 (thorough) bytes")
-	b := verif.Bytes("b", verif.Choose("n", 7+2*verif.Tier()))
+	verif.Bound("C14e", "arbitrary 0..8 (quick) / 0..10 (thorough) bytes - long enough for three length-prefixed fields whose coordinate lengths differ")
+	b := verif.Bytes("b", verif.Choose("n", 9+2*verif.Tier()))
 	var q ecdhParam
 	_ = q.UnmarshalBinary(b)
 	verif.Reached("end")
